@@ -61,6 +61,7 @@ type Fx struct {
 	arity         []int
 	tailStmt      ast.Stmt // last statement of the function body when only a bare return follows it
 	loopHeads     map[string]*State
+	stepLoops     []*stepLoop // enclosing loops with `step ensures` clauses (innermost last)
 	loopEntries   map[string]*State
 	countLoops    map[string]countLoop
 }
@@ -445,8 +446,40 @@ func (fx *Fx) execReturn(st *State, s *ast.ReturnStmt) {
 	fx.doReturn(st)
 }
 
+// stepLoop: a loop with `step ensures` clauses whose body is being executed.
+type stepLoop struct {
+	lp    *loopParts
+	head  *State
+	depth int // len(fx.ret) when the loop was entered: only returns of that very function leave the loop's function
+	nret  int
+}
+
 func (fx *Fx) doReturn(st *State) {
 	rc := fx.ret[len(fx.ret)-1]
+	// a return from inside a loop with per-turn clauses ends a turn: the clauses hold there too (before deferred calls)
+	if !st.dead {
+		for _, sl := range fx.stepLoops {
+			if sl.depth != len(fx.ret) {
+				continue
+			}
+			sl.nret++
+			tag := fmt.Sprintf("loop%d", sl.lp.ord)
+			for k, it := range sl.lp.spec.Step {
+				parts := splitConj(it.Expr)
+				for pi, pe := range parts {
+					a := clauseAnchor(tag, it, k)
+					if len(parts) > 1 {
+						a = fmt.Sprintf("%s.c%d", a, pi+1)
+					}
+					phi, ok := fx.specBoolIfInScope(fx.specEnv(st, sl.head, sl.lp.body.Lbrace+1), pe)
+					if !ok {
+						continue
+					}
+					fx.c.oblige(st, "iter", fmt.Sprintf("%s.return%d", a, sl.nret), phi, it.Text, fx.w.pos(sl.lp.node.Pos()))
+				}
+			}
+		}
+	}
 	r := st.clone()
 	fx.runDefers(r, rc)
 	if !r.dead {
